@@ -245,7 +245,7 @@ DESIGN_CFG = {
 
 # thorough tier: a large plan is driven and judged in chunks, one TLC run of at most ~150 k sessions each
 CHUNKS = {("C01", "dp"): 8, ("C05", "dp"): 8, ("C06", "dp"): 4, ("C07", "dp"): 8, ("C03", "pt"): 6, ("C08", "pt"): 6, ("C04", "eq"): 4,
-          ("C02", "tx"): 4, ("C09", "jp"): 3, ("C10", "jp"): 6, ("C11", "mg"): 3, ("C17", "v1"): 8, ("C18", "v1"): 3, ("C13", "cr"): 4}
+          ("C02", "tx"): 4, ("C09", "jp"): 3, ("C10", "jp"): 6, ("C11", "mg"): 3, ("C17", "v1"): 8, ("C18", "v1"): 3, ("C13", "cr"): 4, ("C15", "api"): 8}
 
 THOROUGH_EXTRA = {p: ["MCPatch-list", "MCPatch-list4", "MCPatch-nest", "MCPatch-obj", "MCPatch-keyed"] for p in ("C01", "C03", "C05", "C06", "C07", "C08")}
 
